@@ -630,7 +630,7 @@ class ClientProgram:
             n = 0
             for _attr in c.listdir_iter(st[1], read_aheads=st[2]):
                 n += 1
-                if n % st[3] == 0:
+                if (n == 1) if st[3] < 0 else (n % st[3] == 0):  # every k-th entry, or (-1) only the first
                     if st[4] == "write":
                         F["w0"].write(b"i")
                     else:
@@ -779,7 +779,7 @@ def iter_program(rng):
     action = rng.choice(["stat", "write"])
     if action == "write" or rng.random() < 0.5:
         steps += [("open_w", "w0", True, "w"), ("write", "w0", 10, rng.choice([1, 5, 40]))]
-    steps.append(("iter_interleave", rng.choice(["/", "/d"]), rng.choice([1, 2, 5, 50]), rng.choice([1, 2, 7, 17]),
+    steps.append(("iter_interleave", rng.choice(["/", "/d"]), rng.choice([1, 2, 5, 50]), rng.choice([1, 2, 7, 17, -1]),
                   action))
     steps.append(("stat", "/r0"))
     if steps[0][0] == "open_w":
